@@ -1328,6 +1328,10 @@ static Janet os_execute_impl(int32_t argc, Janet *argv, JanetExecuteMode mode) {
         if (!use_environ) {
             environ = envp;
         }
+#if defined(JANET_EV) && defined(SIGPIPE)
+        /* The event loop ignores SIGPIPE; the new program should start with the default disposition. */
+        signal(SIGPIPE, SIG_DFL);
+#endif
         do {
             if (janet_flag_at(flags, 1)) {
                 status = execvp(cargv[0], cargv);
@@ -1335,6 +1339,9 @@ static Janet os_execute_impl(int32_t argc, Janet *argv, JanetExecuteMode mode) {
                 status = execv(cargv[0], cargv);
             }
         } while (status == -1 && errno == EINTR);
+#if defined(JANET_EV) && defined(SIGPIPE)
+        signal(SIGPIPE, SIG_IGN);
+#endif
         janet_panicf("%p: %s", cargv[0], janet_strerror(errno ? errno : ENOENT));
     }
 
@@ -1378,17 +1385,32 @@ static Janet os_execute_impl(int32_t argc, Janet *argv, JanetExecuteMode mode) {
         posix_spawn_file_actions_adddup2(&actions, 1, 2);
     }
 
+    /* The event loop ignores SIGPIPE and ignored signals are inherited: give the child the default
+     * disposition back so that it behaves like a program started from a shell. */
+    posix_spawnattr_t attr;
+    posix_spawnattr_init(&attr);
+#if defined(JANET_EV) && defined(SIGPIPE)
+    {
+        sigset_t sigdefault;
+        sigemptyset(&sigdefault);
+        sigaddset(&sigdefault, SIGPIPE);
+        posix_spawnattr_setsigdefault(&attr, &sigdefault);
+        posix_spawnattr_setflags(&attr, POSIX_SPAWN_SETSIGDEF);
+    }
+#endif
+
     pid_t pid;
     if (janet_flag_at(flags, 1)) {
         status = posix_spawnp(&pid,
-                              child_argv[0], &actions, NULL, cargv,
+                              child_argv[0], &actions, &attr, cargv,
                               use_environ ? environ : envp);
     } else {
         status = posix_spawn(&pid,
-                             child_argv[0], &actions, NULL, cargv,
+                             child_argv[0], &actions, &attr, cargv,
                              use_environ ? environ : envp);
     }
 
+    posix_spawnattr_destroy(&attr);
     posix_spawn_file_actions_destroy(&actions);
 
     if (pipe_in != JANET_HANDLE_NONE) close(pipe_in);
